@@ -1202,6 +1202,51 @@ pub struct UsesHand {
     pub inl: Hand<ZL4>,
 }
 
+// a hand-written type whose identifier is not the prefix of its name, and its users
+pub struct ReadOnly;
+
+impl TS for ReadOnly {
+    type WithoutGenerics = Self;
+    type OptionInnerType = Self;
+
+    fn ident() -> String {
+        n(147)
+    }
+    fn name() -> String {
+        format!("Readonly<{}>", n(147))
+    }
+    fn decl() -> String {
+        format!("type {} = {{ theme: string, size: number, }};", n(147))
+    }
+    fn decl_concrete() -> String {
+        Self::decl()
+    }
+    fn inline() -> String {
+        "{ theme: string, size: number, }".to_string()
+    }
+    fn inline_flattened() -> String {
+        Self::inline()
+    }
+    fn output_path() -> Option<std::path::PathBuf> {
+        let e = p(147);
+        Some(std::path::PathBuf::from(if e.ends_with('/') {
+            format!("{e}{}.ts", n(147))
+        } else {
+            e
+        }))
+    }
+}
+
+#[derive(TS)]
+#[ts(export_to = p(148), rename = n(148))]
+pub struct UsesReadOnly {
+    pub settings: ReadOnly,
+    pub history: Vec<ReadOnly>,
+    #[ts(inline)]
+    pub double: Option<Option<SW0>>,
+    pub plain_double: Option<Option<SL1>>,
+}
+
 // ---- family L: literal attributes, as in ordinary user code -------------------------------
 
 #[derive(TS)]
@@ -1234,7 +1279,7 @@ pub struct L3 {
 pub struct L4(pub String);
 
 /// Number of definitions that read the table (`p(i)` / `n(i)`).
-pub const DER_DEFS: usize = 147;
+pub const DER_DEFS: usize = 149;
 
 #[derive(Clone, Copy, Debug)]
 pub enum Place {
@@ -1437,7 +1482,9 @@ pub const H_ZY_N0: usize = 167;
 pub const HAND_DUMMY: usize = 168;
 pub const HAND_ZL1: usize = 169;
 pub const USESHAND_: usize = 170;
-pub const DER_HANDLES: usize = 171;
+pub const READONLY_: usize = 171;
+pub const USESREADONLY_: usize = 172;
+pub const DER_HANDLES: usize = 173;
 
 use Place::{Lit, RenameOnly, Table as Tb};
 
@@ -1656,6 +1703,8 @@ pub const MANIFEST: [DerInfo; DER_HANDLES] = [
     DerInfo { label: "Hand<Dummy>", place: Tb(145), import_refs: &[], reach_refs: &[] },
     DerInfo { label: "Hand<ZL1>", place: Tb(145), import_refs: &[], reach_refs: &[] },
     DerInfo { label: "UsesHand", place: Tb(146), import_refs: &[], reach_refs: &[] },
+    DerInfo { label: "ReadOnly", place: Tb(147), import_refs: &[], reach_refs: &[] },
+    DerInfo { label: "UsesReadOnly", place: Tb(148), import_refs: &[], reach_refs: &[] },
 ];
 
 pub fn der_handle(h: usize) -> Handle {
@@ -1832,6 +1881,8 @@ pub fn der_handle(h: usize) -> Handle {
         HAND_DUMMY => handle::<Hand<ts_rs::Dummy>>(l),
         HAND_ZL1 => handle::<Hand<ZL1>>(l),
         USESHAND_ => handle::<UsesHand>(l),
+        READONLY_ => handle::<ReadOnly>(l),
+        USESREADONLY_ => handle::<UsesReadOnly>(l),
         _ => panic!("no such derived handle {h}"),
     }
 }
